@@ -38,6 +38,10 @@ def gen(rng):
     wd = L['work'][vol]
     aux = home + '/aux' if vol == '/' else vol + '/aux'
     sub = rng.choice(['', '/p1', '/p1/p2'])
+    if rng.random() < 0.05:
+        # a deep location of multi-byte names below p1 (each component ~240 bytes): the escaped Path value is 6-10 KB long
+        sub = '/p1/' + '/'.join(rng.choice(['é' * 118, 'ж' * 118, '日' * 79]) + str(k_) for k_ in range(rng.randint(9, 14)))
+        steps.append(['d', wd + sub, 0o755])
     if sub:
         steps.append(['d', wd + '/p1', 0o755])
         if sub == '/p1/p2':
@@ -241,7 +245,7 @@ def check(sim, case, st):
     extra_removed = [p for p in removed if p not in exp_removed]
     parents = set()
     p = posixpath.dirname(loc)
-    while p and p != '/':
+    while p and p.strip('/') and posixpath.dirname(p) != p:
         parents.add(p)
         p = posixpath.dirname(p)
     extra_added = [p for p in added if not (p == loc or p.startswith(loc + '/') or (p in parents and snap3[p][0] == 'd'))]
